@@ -17,9 +17,21 @@ def consts(ctx):
     ctx.obligations.append(("consts:verifyRawCerts lifetime bound found in crypto.go", bool(m), "" if m else "pattern not found"))
     expr = m.group(1) if m else "0"
     ctx.gen_consts_go(PKG, ["certValidity", "clockSkewAllowance"], exprs={"verifyMaxLifetime": expr}, extra_imports=["time"])
+    # which RSA test verifyRawCerts performs: 0 = the SignatureAlgorithm switch only (pinned tree),
+    # 1 = it also looks at the certificate's PublicKeyAlgorithm (fixes/C18-verifier-rsa-detection.diff).
+    # A wrong guess here shows up as a conformance mismatch on the RSA rows of the verifier table.
+    b = re.search(r"func verifyRawCerts\(.*?\n}\n", src, re.S)
+    body = b.group(0) if b else ""
+    rule = 1 if re.search(r"PublicKeyAlgorithm\s*==\s*x509\.RSA", body) else 0
+    ctx.add_const_raw("Definition verifyRsaRule : Z := %d." % rule,
+                      "RSA test of verifyRawCerts (0: six PKCS#1 v1.5 signature algorithms only; 1: also PSS and RSA public keys)")
+    ctx.notes.append("verifyRsaRule=%d (%s)" % (rule, "pinned tree: c18_verify_sound_refuted applies" if rule == 0 else "repaired verifier: c18_verify_sound_if_repaired applies"))
 
 
 def harness(ctx, casefile, tier, seed):
+    if ctx.tier == "thorough" and not getattr(ctx, "_coqchk_done", False):
+        ctx._coqchk_done = True
+        ctx.coqchk(["Verif.c18.Properties"])   # independent re-check of the compiled proofs
     return ctx.go_test(PKG, "TestVerifC18$", OVERLAY,
                        env={"VERIF_OUT": casefile, "VERIF_TIER": tier, "VERIF_SEED": str(seed)}, timeout=2400)
 
@@ -31,6 +43,10 @@ def warm(ctx):
 
 
 def replay_harness(ctx, casefile, toks):
+    if os.path.exists(casefile):
+        os.remove(casefile)
+    if toks[0] == 3:
+        return 0, "dial cases are not re-executed (the verdict on the recorded observations is shown)"
     return ctx.go_test(PKG, "TestVerifC18Replay$", OVERLAY,
                        env={"VERIF_OUT": casefile, "VERIF_REPLAY_CASE": " ".join(map(str, toks))}, timeout=600)
 
@@ -83,7 +99,7 @@ def describe(t):
     try:
         if t[0] in (1, 4):
             evs, i = [], 4
-            while i < len(t) and len(evs) < 40:
+            while i < len(t) and len(evs) < 10:
                 op = t[i]
                 if op == 0:
                     s, i = _snap(t, i + 1); evs.append({"init": s})
@@ -115,14 +131,35 @@ def describe(t):
     return {"raw": t[:120]}
 
 
+def _rollovers(t):
+    """number of changes of the served certificate's hash id along a timeline"""
+    n, i, prev = 0, 4, None
+    try:
+        while i < len(t):
+            op = t[i]
+            if op == 4:
+                i += 4
+                continue
+            i += 2 if op == 1 else 1
+            h = t[i + 14]
+            if prev is not None and h != prev:
+                n += 1
+            prev = h
+            i += 15
+            i += 1 + 2 * t[i]
+            i += 1 + 2 * t[i]
+    except IndexError:
+        pass
+    return n
+
+
 def nontrivial(line):
     # a timeline is non-trivial when the served certificate changed at least once;
-    # a verifier/dial case when it was accepted/connected or refused for a reason
-    # other than a plain hash mismatch
-    t = line.split()
-    if t[0] in (b"1", b"4"):
-        return len(t) > 60
-    return t[-1] != b"2" if t[0] == b"2" else True
+    # a verifier case when the outcome is not a plain hash mismatch; every dial is
+    t = [int(x) for x in line.split()]
+    if t[0] in (1, 4):
+        return _rollovers(t) >= 1
+    return t[-1] != 2 if t[0] == 2 else True
 
 
 def key(tag, toks, d):
@@ -157,6 +194,10 @@ if __name__ == "__main__":
         "chains longer than one certificate are outside the stated quantifier (DESIGN.md 9, item 11): the model follows the code (it inspects the LAST certificate), the monitor does not judge them; the harness counts the accepted [unpinned, pinned] chains",
         "the Noise handshake delivers the server's early data authentically (C02/C19 territory); the dial cases run the real handshake over loopback QUIC",
     ]
+    ctx.notes += [
+        "outside the stated quantifier, counted only (input_distribution: verify.chain2_accepted_while_first_cert_not_pinned, dial.chain2_first_unpinned_last_pinned): verifyRawCerts hashes the LAST certificate of the chain while TLS authenticates the FIRST; a real Dial completes against a server presenting [unpinned own certificate, the listener's pinned certificate] (DESIGN.md 9 item 11)",
+        "outside the property text, noted only: after a restart lastConfig is nil, so an address learned in the previous period passes the certificate check but is refused at the Noise confirmation (the restarted server no longer lists the previous hash)",
+    ]
     standard_flow(ctx, dict(
         consts=consts,
         coq_targets=["c18/Properties.vo", "c18/Extract.vo"],
@@ -176,5 +217,5 @@ if __name__ == "__main__":
              "dials: real Dial against a real listener on loopback after one exact rollover, addresses built from last/current/next/bogus/"
              "re-coded/two-periods-old hashes, servers that drop, re-code or garble their early-data hashes or present other certificates. "
              "A case is non-trivial when a rollover was observed (timelines) or the outcome is not a plain hash mismatch.",
-        describe=describe, key=key, what=what, crosscheck=120,
+        describe=describe, key=key, what=what, crosscheck=50,
     ))
